@@ -241,7 +241,7 @@ func (c *cluster) generate(rt *rapid.T, p *profile, spec *checkSpec) {
 			extras = append(extras, uint64(n+1+i))
 		}
 	}
-	c.step(vAct{A: "init", K: n, L: extras, B: rapid.IntRange(0, 4).Draw(rt, "noShutdownOnRemove") == 0})
+	c.step(vAct{A: "init", K: n, L: extras, T: c.seed, B: rapid.IntRange(0, 4).Draw(rt, "noShutdownOnRemove") == 0})
 	// warm-up in free mode: elect a leader, commit some updates
 	for i := 0; i < 12 && len(c.leaders()) == 0 && !c.failed(); i++ {
 		c.step(vAct{A: "adv", T: 700})
